@@ -13,7 +13,7 @@ import os
 REPO = os.environ.get("VERIF_REPO", "/repo")
 
 NICE_T = [20, 30, 40, 60, 80, 90, 100, 120, 140, 150, 180, 200, 220, 250, 300]
-ZONE_PATTERNS = ["one", "one", "flat2", "flat3", "nested", "suffix", "deep"]
+ZONE_PATTERNS = ["one", "one", "flat2", "flat3", "nested", "suffix", "deep", "blanks"]
 
 
 def _num(r, nice, lo, hi, choices, dp=(0, 1, 3)):
@@ -91,6 +91,8 @@ def gen_zones(r):
         return pat, ["A/X", "A/Y", "B"]
     if pat == "suffix":
         return pat, ["A", "B/A", "B"]
+    if pat == "blanks":
+        return pat, ["Boiler ", " Mill", "Mill / Dryer", "Boiler"]
     return pat, ["A/X/P", "A/X/Q", "A/Y"]
 
 
@@ -101,6 +103,13 @@ def generate(r, small=False, max_streams=None):
         n = min(n, max_streams)
     pat, zones = gen_zones(r)
     streams = gen_streams(r, n, nice, zones, dup_names=r.random() < 0.15)
+    if r.random() < 0.08 and n >= 2:
+        # threshold problem: every hot stream lies wholly above every cold stream (no pinch on one or both sides)
+        for k, s_ in enumerate(streams):
+            if k % 2 == 0:
+                s_["t_supply"], s_["t_target"] = float(r.choice([300, 350, 280])), float(r.choice([200, 220, 240]))
+            else:
+                s_["t_supply"], s_["t_target"] = float(r.choice([20, 40, 60])), float(r.choice([100, 120, 150]))
     prob = dict(streams=streams, utilities=gen_utilities(r, streams, nice))
     if r.random() < 0.18:
         # explicit zone tree: root + process zones (+ optionally one nested level); generic or specific type names;
@@ -114,6 +123,12 @@ def generate(r, small=False, max_streams=None):
             if r.random() < 0.25:
                 node["children"] = [dict(name=z + "-1", type="Zone" if generic else "Process Zone", children=None)]
             kids.append(node)
+        if r.random() < 0.3 and len(kids) >= 2:
+            # two branches holding a node of the same name at the same depth, and streams labelled with that short name only
+            for node in kids[:2]:
+                node["children"] = (node["children"] or []) + [dict(name="Dryer", type="Zone" if generic else "Process Zone", children=None)]
+            for s in streams[: max(1, len(streams) // 3)]:
+                s["zone"] = "Dryer"
         prob["zone_tree"] = dict(name=root, type=r.choice(["Zone", "Site", ""]) if generic else "Site", children=kids)
         for s in streams:
             s["zone"] = s["zone"].split("/")[0]
@@ -144,6 +159,8 @@ def gen_options(r, kind="c11"):
             opts[key] = r.choice(vals)
     if r.random() < 0.15:
         opts["REFRIGERANTS"] = r.choice(["water,ammonia", "R134a", "propane,water"])
+    if r.random() < 0.06:
+        opts["DECIMAL_PLACES"] = r.choice([3.0, "3", None, 4])  # as a spreadsheet or a hand-written JSON file may deliver it
     return opts or None
 
 
